@@ -3,6 +3,7 @@
   Mirrors dd/bdd.py line by line (see the comments for the Python it models).
 -/
 import DD.Basic
+import Generated.Tables
 open Std
 
 namespace DD
@@ -18,7 +19,7 @@ def requestReordering : M Unit := fun m =>
       if k ≤ 1 then (.error .needsReordering, { m with fireIn := none })
       else (.ok (), { m with fireIn := some (k - 1) })
     | none =>
-      if m.len ≥ 2 * l then (.error .needsReordering, m) else (.ok (), m)
+      if m.len ≥ Gen.reorderFactor * l then (.error .needsReordering, m) else (.ok (), m)
 
 /-- `self._ref[abs(u)] += 1` -/
 def incref (u : Int) : M Unit := fun m =>
